@@ -124,14 +124,14 @@ def one_recording(c, nsub, req, stem_in, stem_out, in_blocks, bpf_in, ncards, bl
         V('input_num_blocks', '%s: input_num_blocks=%r, input holds %d' % (tag, be.input_num_blocks, len(in_blocks)),
           site='RawVoltageBackend.from_data')
         return False
-    # spy requantisers in place of the internally created ones (same configuration)
+    # the requantisers the backend built itself (their configuration is part of what is checked) are tapped, not replaced
     for a in range(na):
         for p in range(npol):
-            q = SpyComplex(num_bits=bits)
-            q.quantizer_r.num_bits = bits
-            q.quantizer_i.num_bits = bits
-            be.requantizer[a][p] = q
+            vharness.tap_complex_quantizer(be.requantizer[a][p])
     rq = be.requantizer
+    if len(set(id(q) for row in rq for q in row)) != na * npol:
+        V('shared_stage_objects', '%s: requantisers are shared between antennas / polarisations' % tag, site='RawVoltageBackend.from_data')
+        return False
     reads = []
     orig = be._read_next_block
 
@@ -168,6 +168,13 @@ def one_recording(c, nsub, req, stem_in, stem_out, in_blocks, bpf_in, ncards, bl
             return False
         res['traces'] += 1
         res['transitions'] += len(src.log)
+        # ---- accounting of a (possibly clamped) recording
+        if be.num_blocks != want_blocks or be.total_obs_num_samples != want_blocks * T * P or \
+                abs(be.obs_length - want_blocks * T * P / RATE) > 1e-12 * max(want_blocks * T * P / RATE, 1e-300):
+            V('accounting', '%s: after the recording num_blocks=%r total_obs_num_samples=%r obs_length=%r; %d blocks of %d spectra were '
+              'written (%d samples, %r s)' % (tag, be.num_blocks, be.total_obs_num_samples, be.obs_length, want_blocks, T,
+                                              want_blocks * T * P, want_blocks * T * P / RATE))
+            return False
         # ---- (ii) framing of the output
         try:
             outb = [b for fn in guppi.list_files(stem_out) for b in guppi.parse_file(fn)]
@@ -187,6 +194,11 @@ def one_recording(c, nsub, req, stem_in, stem_out, in_blocks, bpf_in, ncards, bl
             got = (h.get('BLOCSIZE'), h.get('NBITS'), h.get('OBSNCHAN'), 2 if h.get('NPOL') == 4 else h.get('NPOL'), h.get('NANTS', 1))
             if got != (blocsize, bits, na * nc, npol, na):
                 V('output_header', '%s: output (BLOCSIZE, NBITS, OBSNCHAN, NPOL, NANTS) = %s, input %s' % (tag, got, (blocsize, bits, na * nc, npol, na)))
+                return False
+            if abs(float(h.get('SCANLEN', -1)) - want_blocks * T * P / RATE) > 1e-9 * (want_blocks * T * P / RATE) or \
+                    int(h.get('PKTSTOP', -1)) - int(h.get('PKTSTART', 0)) != want_blocks * T:
+                V('output_header', '%s: SCANLEN=%r PKTSTOP-PKTSTART=%r for %d blocks of %d spectra' % (
+                    tag, h.get('SCANLEN'), int(h.get('PKTSTOP', -1)) - int(h.get('PKTSTART', 0)), want_blocks, T))
                 return False
         # ---- (i) exact decode of every input block read
         if len(reads) != want_blocks:
@@ -276,6 +288,10 @@ def one_recording(c, nsub, req, stem_in, stem_out, in_blocks, bpf_in, ncards, bl
                             V('final_requantization', '%s: %d output samples are not the requantisation of (input + synthetic) (worst %.3f)'
                               % (tag, bad, worst))
                             return False
+                    if fin.get('bits_ri', (bits, bits)) != (bits, bits):
+                        V('requantizer_bits', '%s: the requantiser quantises (real, imag) to %s bits for a %d-bit input'
+                          % (tag, fin.get('bits_ri'), bits), site='RawVoltageBackend.from_data')
+                        return False
                     if not np.array_equal(fin['x'], syn['q'] + inp):
                         V('sum_input', '%s: final-stage input of step %d is not synthetic + input block %d rows %d..%d'
                           % (tag, j // 2, blk, r0, r0 + nrows))
